@@ -11,7 +11,7 @@
              once flag only after they have finished
 """
 from facts import ASSIGN_OPS, AnalysisBroken, access_path, strip_casts, unparse, root_var
-from flow import Facts
+from flow import atom, Facts
 from locks import LockState, LOCK, requires_lock
 from callgraph import CallGraph
 from rules_common import where
@@ -167,7 +167,6 @@ def run(ctx):
     rep.check(ok, "D3-PUBLICATION", where(lv), "value;release-store;unlock",
               "value stored before the release store of `inited`, which precedes the unlock (memory order %s)" % st_flag[0].get("order"),
               "orc_once_leave publishes in the wrong order or with a memory order weaker than release (order=%s): a reader can see inited != 0 with a stale value" % st_flag[0].get("order"))
-    from flow import atom
     fc = Facts(en)
     loads = [n for n in en.walk() if n.k == "MemberExpr" and n.name == "value" and n.get("arrow") and n.parent is not None
              and not (n.parent.k == "BinaryOperator" and n.parent.op == "=" and n.parent.c[0] is n)]
@@ -226,7 +225,7 @@ def run(ctx):
             once_guarded = False
             if (f.name, f.tu.base) in reach_init:
                 for m in f.walk():
-                    if m.k == "IfStmt" and m.c[0] is not None and strip_casts(m.c[0]).k == "DeclRefExpr" and strip_casts(m.c[0]).get("dk") == "static_local":
+                    if m.k == "IfStmt" and m.c[0] is not None and atom(m.c[0], True)[1] is True and atom(m.c[0], True)[0] is not None and atom(m.c[0], True)[0].k == "DeclRefExpr" and atom(m.c[0], True)[0].get("dk") == "static_local":
                         thn = m.c[1]
                         if thn is not None and any(x.k == "ReturnStmt" for x in thn.walk()) and f.dominates(m.c[0], n):
                             once_guarded = True
@@ -353,7 +352,7 @@ def _only_via_once_guard(cg, f, reach_init, depth=0):
         guarded = False
         if (h.name, h.tu.base) in reach_init:
             for m in h.walk():
-                if m.k == "IfStmt" and m.c[0] is not None and strip_casts(m.c[0]).k == "DeclRefExpr" and strip_casts(m.c[0]).get("dk") == "static_local":
+                if m.k == "IfStmt" and m.c[0] is not None and atom(m.c[0], True)[1] is True and atom(m.c[0], True)[0] is not None and atom(m.c[0], True)[0].k == "DeclRefExpr" and atom(m.c[0], True)[0].get("dk") == "static_local":
                     if m.c[1] is not None and any(x.k == "ReturnStmt" for x in m.c[1].walk()):
                         # the call to f must come after the guard
                         for c in h.calls(f.name):
